@@ -144,8 +144,8 @@ def gen_spec(seed, profile="core", variant=None, templates=None):
         nodes.append({"id": px + nid, "type": "source", "flow": ftype, "blocking": blocking, "ia": ia, "item_length": item_len,
                       "out_sel": None})
 
-    def machine(nid):
-        nodes.append({"id": px + nid, "type": "machine", "wc": rng.choice((1, 1, 2, 3)), "delay": rnd_delay_desc(rng),
+    def machine(nid, allow_zero=True):
+        nodes.append({"id": px + nid, "type": "machine", "wc": rng.choice((1, 1, 2, 3)), "delay": rnd_delay_desc(rng, allow_zero=allow_zero),
                       "blocking": rng.random() < 0.6, "setup": rng.choice(SETUPS), "in_sel": None, "out_sel": None})
 
     def splitter(nid):
@@ -239,7 +239,7 @@ def gen_spec(seed, profile="core", variant=None, templates=None):
             # a machine that sends part of its output back to its own input (rework loop): the same item visits the same
             # node several times
             src("S0")
-            machine("M0")
+            machine("M0", allow_zero=False)      # a zero-time loop would be an endless loop of the *model*, not of the library
             sink("K0")
             conn("S0", "M0")
             conn("M0", "M0")
